@@ -272,7 +272,13 @@ def st_pp_value():
         st.lists(st.sampled_from([0, 1, 2, 10, 0.0, 1.0, 2.0, 10.0, -0.0, 1e1, True, False, 7, 7.0]), min_size=1, max_size=5).map(
             lambda x: ["l", x]) | \
         st.lists(st.tuples(st.sampled_from(["id", "n", "flag"]), st.sampled_from([0, 1, 0.0, 1.0, 2, 2.0, True, None])), min_size=1,
-                 max_size=3, unique_by=lambda kv: kv[0]).map(lambda kv: ["d", [list(p) for p in kv]])
+                 max_size=3, unique_by=lambda kv: kv[0]).map(lambda kv: ["d", [list(p) for p in kv]]) | \
+        st.lists(st.tuples(st.sampled_from([0, 1, 0.0, 1.0, True, False, 2, 2.0, None, "1", "", 10, 1e1]),
+                           st.sampled_from([0, 1, 1.0, "v", None])), min_size=1, max_size=3,
+                 unique_by=lambda kv: (type(kv[0]).__name__, kv[0])).map(
+            # dictionaries whose keys are numbers, booleans, None (keys that are equal across types stay apart: one dict
+            # per such key, in a list)
+            lambda kv: ["l", [["d", [list(p)]] for p in kv]])
 
 
 @st.composite
